@@ -149,7 +149,23 @@ func runParent(p *core.Prop, fs *findings.Set, tier string, jobs int) int {
 			cmd.Env = append(os.Environ(), "GOMAXPROCS=2")
 			cmd.Stderr = os.Stderr
 			cmd.Stdout = os.Stderr
-			errs[w] = cmd.Run()
+			if err := cmd.Start(); err != nil {
+				errs[w] = err
+				return
+			}
+			done := make(chan error, 1)
+			go func() { done <- cmd.Wait() }()
+			limit := 15 * time.Minute
+			if tier == "thorough" {
+				limit = 3 * time.Hour
+			}
+			select {
+			case errs[w] = <-done:
+			case <-time.After(limit):
+				cmd.Process.Kill()
+				<-done
+				errs[w] = fmt.Errorf("killed by the %v wall-clock watchdog (a call into the code under test did not return, or the run is too large; C06 decides non-termination deterministically with statement budgets)", limit)
+			}
 		}(w)
 	}
 	wg.Wait()
